@@ -180,6 +180,21 @@ theorem parseSlice_render (l : List SliceEntry) (hl : l ≠ []) (more : List Cha
   simp only [hnE, hsp, mapM_sliceEntry_render]
   simp
 
+/-- a rendered slice is well formed: the slice parser does not raise on it -/
+theorem sliceRaises_render (l : List SliceEntry) (hl : l ≠ []) (more : List Char) :
+    sliceRaises (renderSlice l ++ more) = false := by
+  obtain ⟨hch, hne, hsp⟩ := sliceBody_spec l hl
+  have ht := takeWhile_append_stop (fun c => decide (c.isDigit = true ∨ c = ':' ∨ c = ','))
+    ([','].intercalate (l.map renderSlicePart)) ']' more hch (by decide)
+  have hnE : ([','].intercalate (l.map renderSlicePart)).isEmpty = false := by
+    cases h : [','].intercalate (l.map renderSlicePart) with
+    | nil => exact absurd h hne
+    | cons c t => rfl
+  simp only [renderSlice, List.cons_append, List.append_assoc, List.nil_append, sliceRaises]
+  rw [ht.1, ht.2]
+  simp only [hnE, hsp, mapM_sliceEntry_render]
+  simp
+
 /-! ### scanning a rendered hole with slice -/
 
 theorem renderPieceS_of_noslice (p : Piece) (hp : PieceOK p) : renderPieceS p = renderPiece p := by
@@ -215,7 +230,8 @@ theorem scan_pieceS (fuel : Nat) (p : Piece) (hp : PieceOKS p) (more : List Char
           scanTemplate, if_true, List.dropWhile_cons_of_neg (show ¬ isWs '{' = true by decide)]
         rw [ht.1, ht.2]
         have hs2 : parseSlice ('}' :: more) = none := parseSlice_none_of_head _ (by simp)
-        simp [parseSlice_render l hl, hs2, parseFormat_none_brace, hne]
+        have hr2 : sliceRaises ('}' :: more) = false := sliceRaises_false_of_head _ (by simp)
+        simp [parseSlice_render l hl, sliceRaises_render l hl, hs2, hr2, parseFormat_none_brace, hne]
       | some f =>
         have hfo := hfm f rfl
         obtain ⟨a, b, hfe, _, _, _⟩ := hfo.ex
@@ -227,7 +243,9 @@ theorem scan_pieceS (fuel : Nat) (p : Piece) (hp : PieceOKS p) (more : List Char
         rw [ht.1, ht.2]
         have hs2 : parseSlice (f ++ '}' :: more) = none := by
           apply parseSlice_none_of_head; rw [hfe]; simp
-        simp [parseSlice_render l hl, hs2, parseFormat_render f more hfo, hne]
+        have hr2 : sliceRaises (f ++ '}' :: more) = false := by
+          apply sliceRaises_false_of_head; rw [hfe]; simp
+        simp [parseSlice_render l hl, sliceRaises_render l hl, hs2, hr2, parseFormat_render f more hfo, hne]
 
 theorem renderPieceS_length (p : Piece) (hp : PieceOKS p) : 1 ≤ (renderPieceS p).length := by
   cases p <;> simp [renderPieceS, PieceOKS] at hp ⊢
@@ -306,20 +324,21 @@ theorem mapM_pieceOut_err (hole : HoleFn) (ps : List Piece)
 
 /-! ### text that contains `{` -/
 
-/-- a character that the scanner copies: anything but `{`, or a `{` that is not followed (after
-    blanks) by another `{` -/
+/-- a character that the scanner copies: anything but `{`, or a `{` that is neither followed (after
+    blanks) by another `{` nor directly by a malformed slice (on which the slice parser raises) -/
 def CopyOK (c : Char) (after : List Char) : Prop :=
-  c ≠ '{' ∨ (after.dropWhile isWs).head? ≠ some '{'
+  c ≠ '{' ∨ ((after.dropWhile isWs).head? ≠ some '{' ∧ sliceRaises after = false)
 
 theorem scan_copy (fuel : Nat) (c : Char) (more : List Char) (h : CopyOK c more) :
     scanTemplate (fuel + 1) (c :: more) = .text c :: scanTemplate fuel more := by
   by_cases hc : c = '{'
   · subst hc
-    have h2 : (more.dropWhile isWs).head? ≠ some '{' := by
+    have h2 : (more.dropWhile isWs).head? ≠ some '{' ∧ sliceRaises more = false := by
       rcases h with h | h
       · exact absurd rfl h
       · exact h
-    simp only [scanTemplate, if_true]
+    obtain ⟨h2, h3⟩ := h2
+    simp only [scanTemplate, if_true, h3, Bool.false_eq_true, if_false]
     cases hr : more.dropWhile isWs with
     | nil => rfl
     | cons d t =>
